@@ -123,6 +123,22 @@ func c17Ops(si, prfIdx int, thorough bool) []c17Op {
 			return fmt.Sprintf("%x|%x|%x|%x", ch.InitiatorToResponderEncryptionKey, ch.InitiatorToResponderIntegrityKey, ch.ResponderToInitiatorEncryptionKey, ch.ResponderToInitiatorIntegrityKey)
 		}}
 	}
+	// authentic but malformed: the checksum is genuine (made with the right key), what it covers is not a message
+	authBad := func(kind int, senderI bool) []byte {
+		ske, ska := ks.DirKeys(senderI)
+		h := msgs[0].H
+		h.MsgID = uint32(40 + kind)
+		switch kind {
+		case 0: // pad-length octet larger than the plaintext
+			return ref.ProtectRaw(ks.Suite, ske, ska, h, 40, append(univ.Pat(31, 3), 0xfe), univ.Pat(16, 50), -1)
+		case 1: // inner chain that does not parse (a generic header announcing more than there is)
+			return ref.ProtectRaw(ks.Suite, ske, ska, h, 40, append([]byte{0, 0, 0xff, 0xf0, 1, 2, 3, 4, 5, 6, 7, 8, 9, 10, 11}, 0), univ.Pat(16, 51), -1)
+		case 2: // ciphertext that is not a whole number of blocks
+			return ref.ProtectRaw(ks.Suite, ske, ska, h, 40, append(univ.Pat(31, 4), 0), univ.Pat(16, 52), 23)
+		default: // a critical payload of an unsupported type inside
+			return ref.ProtectRaw(ks.Suite, ske, ska, h, 200, append([]byte{0, 0x80, 0, 8, 1, 2, 3, 4, 9, 9, 9, 9, 9, 9, 9}, 7), univ.Pat(16, 53), -1)
+		}
+	}
 	gI := mk(ks, 0, true, 10)  // from initiator, to be unprotected as responder
 	gR := mk(ks, 1, false, 20) // from responder, to be unprotected as initiator
 	flip := func(b []byte, pos int) []byte { x := append([]byte(nil), b...); x[pos] ^= 0x04; return x }
@@ -141,6 +157,17 @@ func c17Ops(si, prfIdx int, thorough bool) []c17Op {
 		unprotect("unprotect(reflected)", gI, true, false), unprotect("unprotect(cross-key)", mk(other, 0, true, 10), false, false),
 		child(16, 1, univ.Pat(32, 5)), child(32, -1, nil),
 		protectFail(0, true, 0), protectFail(0, true, 1), protectFail(1, false, 1), protect(3, true, 7), protect(3, false, 8),
+		unprotect("unprotect(authentic, impossible pad length)", authBad(0, true), false, false), unprotect("unprotect(authentic, inner chain does not parse)", authBad(1, true), false, true),
+		unprotect("unprotect(authentic, ciphertext not block aligned)", authBad(2, false), true, false), unprotect("unprotect(authentic, critical unsupported payload inside)", authBad(3, false), true, false),
+		c17Op{"String()", func(sa *security.IKESAKey) string {
+			// accessors and formatting of the key object between operations
+			_ = sa.String()
+			_ = fmt.Sprintf("%v %+v", sa, sa.IntegInfo)
+			if p, err := sa.ToProposal(); err != nil || p == nil {
+				return "ToProposal error"
+			}
+			return "ok"
+		}},
 	)
 	if thorough {
 		ops = append(ops,
@@ -307,6 +334,31 @@ func c17Long(c *engine.Ctx, si, prfIdx int, ops []c17Op, fresh []string, stopAt 
 		}
 	}
 	c.Count("long_run_operations", int64(step))
+	if stopAt > 0 {
+		return
+	}
+	// bursts: every op twelve times in a row on one object (counters of consecutive failures, of repeated inputs),
+	// then the whole alphabet once
+	for b := range ops {
+		sa := c17Fresh(si, prfIdx)
+		for k := 0; k < 12; k++ {
+			c17Apply(ops[b], sa)
+		}
+		for oi := range ops {
+			out := c17Apply(ops[oi], sa)
+			c.Evals++
+			c.Transitions++
+			if out != fresh[oi] {
+				hist := make([]int, 12)
+				for i := range hist {
+					hist[i] = b
+				}
+				c.Violate("history-dependent/after-burst/"+c17Class(ops[oi].name), fmt.Sprintf("suite %d: after twelve consecutive %s, %s gives %s, on a fresh SA %s", si, ops[b].name, ops[oi].name, trs(out), trs(fresh[oi])),
+					c17Case{Suite: si, PRF: prfIdx, Hist: hist, Op: oi, Tier: c.Tier})
+				return
+			}
+		}
+	}
 }
 
 func histNames(ops []c17Op, h []int) []string {
